@@ -119,6 +119,15 @@ Theorem nop_empty_text_ok : forall op tself t0 t1 ib0 ic0 ib1 ic1 il0 v0,
   elab_eff_text [] (empty_text op tself t0 t1 ib0 ic0 ib1 ic1 il0 v0) = Some EEmpty.
 Proof. intros. split; vm_compute; reflexivity. Qed.
 
+(* ------------------------------------------------------------------ SubRoutine.il_read: the caller's read of the returned value *)
+(* (model/Lower.v, call of a sub-routine: the temporary of the call is set to SIGNED / UNSIGNED(<width of the DECLARED return type>, VARL("ret_val"))) *)
+Theorem subroutine_read_text_ok : forall ret op t0 t1 ib0 ic0 ib1 ic1 il0 v0,
+  match subroutine_text op ret t0 t1 ib0 ic0 ib1 ic1 il0 v0 with Some s => elab [] noparam s | None => None end
+  = Some (PSignExt (vt_sg ret) (if (vt_w ret =? 0)%N then 32%N else vt_w ret) (PVarL "ret_val")).
+Proof.
+  intros. unfold subroutine_text. destruct (vt_sg ret), (vt_w ret) as [|p]; vm_compute; reflexivity.
+Qed.
+
 (* ------------------------------------------------------------------ the value-type helpers, on their whole domains *)
 Definition otype_eqb (a b : option (bool * N)) : bool :=
   match a, b with
